@@ -16,7 +16,7 @@ func init() {
 		Doc: "field ownership by package (mutation, not construction of freshly allocated objects): Node.Layer only phase2; Node.LayerPos and element order of Layer.Nodes only phase3 (phase2/phase3 may build the slice); Node.X/Y and Layer.W/H only phase4; Node.W/H only option closures of package autog; " +
 			"Edge.Points/ArrowHeadStart only phase5; Edge.IsReversed only internal/graph; Edge.From/To only internal/graph, phase3, phase5; Edge.IsInSpanningTree/CutValue only phase2; Node.IsVirtual, Node.ID, Edge.Delta, Edge.Weight only at construction; " +
 			"adjacency lists and DGraph lists only by the packages that own graph surgery; pipeline packages never store into the public graph.Layout/Node/Edge (one obligation per written location and function)",
-		Floor: 60,
+		Floor: 95,
 		Ctl:   []string{"internal__phase5__own1.go.txt"},
 		Run:   runOwn1,
 	})
